@@ -3,7 +3,7 @@ from __future__ import annotations
 
 from . import c16_mask as M
 from . import c16_rows as RW
-from .c16_interp import Interp, NONE, is_const, mem, op, show, free_syms
+from .c16_interp import Interp, NONE, is_const, mem, op, show, free_syms, unfollowed_writes
 
 UTIL = "pyyeti/cla/_utilities.py"
 RES = "pyyeti/cla/dr_results.py"
@@ -111,7 +111,8 @@ def escapes(P, t):
         if any(P.norm(a) == t for a in e.args) or any(P.norm(v) == t for _, v in e.kws):
             if e.name not in ("nan_argmax", "nan_argmin", "isinstance", "len"):
                 return True
-    return False
+    # ... or a member of it / a view of a member is handed to a call that may write into it (`helper(t.mx[:, k], ...)`, `t.mx[:, k].put(...)`)
+    return bool(unfollowed_writes(P, t, family=True, pure=("nan_argmax", "nan_argmin", "maxmin")))
 
 
 def unabs(t):
@@ -323,10 +324,12 @@ def r1_roles(ctx):
                   True if len(groups) == 2 else (None if (len(groups) > 2 or escapes(P, CUR)) else False), fn, f"{len(groups)} stores into curext.ext",
                   nontrivial=False)
             seen_roles = set()
+            unplaced = False
             for gi, e in enumerate(groups):
                 ix, v = P.norm(e.index), P.norm(e.value)
                 if not (ix[0] == "tup" and len(ix) == 3 and is_const(ix[2]) and ix[2][1] in (0, 1)):
                     A.req(f"extrema [{arm}]: stores into the running extrema address one column at selected rows", None, e.node, show(ix))
+                    unplaced = True
                     continue
                 J, role = ix[1], ix[2][1]
                 rname = "max" if role == 0 else "min"
@@ -404,7 +407,8 @@ def r1_roles(ctx):
                         ok = ok and at_rows(xv, MEXTX, J, want_b)
                     A.req(key, ok, x.node, {"index": show(xi), "value": show(xv)})
             if len(groups) == 2:
-                A.req(f"extrema [{arm}]: one block updates the max column, the other the min column", seen_roles == {0, 1}, fn, sorted(seen_roles))
+                A.req(f"extrema [{arm}]: one block updates the max column, the other the min column",
+                      None if (unplaced and seen_roles != {0, 1}) else seen_roles == {0, 1}, fn, sorted(seen_roles))
         A.req(f"extrema [{arm}]: rule bound to first-case paths and to later-case paths", nfirst > 0 and nupd > 0, fn, {"first": nfirst, "later": nupd},
               nontrivial=False)
         A.flush(fn)
@@ -782,6 +786,18 @@ def _rowtext(v):
 
 
 # ------------------------------------------------------------------------------------------------------------------------- R3
+def _get_as_item(t):
+    """`d.get(k)` is `d[k]` wherever the entry exists (where it does not, `d[k]` raises and np.fmax(None, x) raises): one value"""
+    if not isinstance(t, tuple) or not t or t[0] in ("c", "s", "g", "fn"):
+        return t
+    if t[0] == "call":
+        a = tuple(_get_as_item(x) for x in t[2])
+        if t[1] == ".get" and len(a) == 2 and not t[3]:
+            return ("idx", a[0], a[1])
+        return ("call", t[1], a, tuple((k, _get_as_item(x)) for k, x in t[3]))
+    return (t[0],) + tuple(_get_as_item(x) if isinstance(x, tuple) else x for x in t[1:])
+
+
 def r3_envelope(ctx):
     fn = ctx.src.func(RES, "DR_Results._compute_srs")
     pr = params(fn, True)
@@ -802,13 +818,14 @@ def r3_envelope(ctx):
         env = [e for e in P.stores() if P.norm(e.target) == ENV]
         per = [e for e in P.stores() if P.norm(e.target)[:2] == ("idx", PER)]
         if not env:
-            A.req("_compute_srs: every path that computes a spectrum updates res.srs.ext[q]", False if per else None, fn,
+            blind = unfollowed_writes(P, ("s", res), family=True)
+            A.req("_compute_srs: every path that computes a spectrum updates res.srs.ext[q]", False if (per and not blind) else None, fn,
                   [show(P.norm(k)) for k, _ in P.fact_order])
             continue
         f = fact_of(P, ("s", first))
         for e in env:
             q = P.norm(e.index)
-            v = P.norm(e.value)
+            v = _get_as_item(P.norm(e.value))
             mine = [x for x in per if P.norm(x.target) == ("idx", PER, q)]
             ok = len(mine) == 1 and P.norm(mine[0].index) == ("s", j)
             A.req(k_slot, ok, mine[0].node if mine else e.node, [show(P.norm(x.target)) + "[" + show(P.norm(x.index)) + "]" for x in per])
